@@ -275,7 +275,18 @@ def has_guard(fi: FuncInfo, pred: Callable[[ast.AST], bool], noret, outcome="rai
 
     for n in _ifs(fi):
         # canonical form: tests are positive, so the failing branch may be either one
-        for test, branch in ((n.test, n.body), (ast.fix_missing_locations(_negate(_copy.deepcopy(n.test))), n.orelse)):
+        # the test as written, and with its locals replaced by the one definition that reaches it (a rebound parameter,
+        # a temporary): `other = other.of; if f(other)` is `if f(other.of)`
+        from . import shared as _sh
+        try:
+            alts = _sh.alternatives(fi.node, n.test, [], at=n.test)
+        except Exception:
+            alts = []
+        resolved = alts[0][0] if len(alts) == 1 and ast.unparse(alts[0][0]) != ast.unparse(n.test) else None
+        cands = [(n.test, n.body), (ast.fix_missing_locations(_negate(_copy.deepcopy(n.test))), n.orelse)]
+        if resolved is not None:
+            cands += [(resolved, n.body), (ast.fix_missing_locations(_negate(_copy.deepcopy(resolved))), n.orelse)]
+        for test, branch in cands:
             if not branch:
                 continue
             try:
@@ -381,10 +392,10 @@ def guard_inventory(repo: Repo, R, noret):
     fb = repo.func(F_CONNT, "ConnTypes.check_bundles_compatible")
     for what, attr in (("signal names", "signals"), ("sub-bundle names", "bundles")):
         def pred(t, attr=attr):
-            return isinstance(t, ast.Compare) and isinstance(t.ops[0], ast.NotEq) and {ast.unparse(t.left), ast.unparse(t.comparators[0])} == {f"sorted(bundle.{attr})", f"sorted(other.{attr})"}
+            return isinstance(t, ast.Compare) and isinstance(t.ops[0], ast.NotEq) and {ast.unparse(t.left), ast.unparse(t.comparators[0])} in ({f"sorted(bundle.{attr})", f"sorted(other.{attr})"}, {f"sorted(bundle.{attr})", f"sorted(other.of.{attr})"})
         G(fb, f"bundle-{attr}-match", pred, f"bundles with different {what} are incompatible", "a bundle with a missing or extra member is connected to a bundle port", outcome="status")
-    sig_loop = any(isinstance(n, ast.For) and ast.unparse(n.iter) == "bundle.signals.items()" and bool(pat.find("self.check_signals_compatible($V, other.signals[$K])", n)) for n in au.walk_no_nested(fb.node))
-    rec_loop = any(isinstance(n, ast.For) and ast.unparse(n.iter) == "bundle.bundles.items()" and bool(pat.find("self.check_bundles_compatible($V.of, other.bundles[$K].of)", n)) for n in au.walk_no_nested(fb.node))
+    sig_loop = any(isinstance(n, ast.For) and ast.unparse(n.iter) == "bundle.signals.items()" and bool(pat.find("self.check_signals_compatible($V, other.signals[$K])", n) or pat.find("self.check_signals_compatible($V, other.of.signals[$K])", n)) for n in au.walk_no_nested(fb.node))
+    rec_loop = any(isinstance(n, ast.For) and ast.unparse(n.iter) == "bundle.bundles.items()" and bool(pat.find("self.check_bundles_compatible($V.of, other.bundles[$K].of)", n) or pat.find("self.check_bundles_compatible($V.of, other.of.bundles[$K].of)", n)) for n in au.walk_no_nested(fb.node))
     R.check(sig_loop and rec_loop, rule, key_of(fb, "member-widths"), fb.site, f"each member signal's width is compared ({sig_loop}) and sub-bundles are compared recursively ({rec_loop})", why="a width mismatch inside a bundle member is accepted")
 
     fcc = repo.func(F_CONNT, "ConnTypes.check_compatible")
@@ -465,7 +476,12 @@ def guard_inventory(repo: Repo, R, noret):
         return both
     G(fmm, "unnamed-module", unnamed, "unnamed module (name None or empty)", "an anonymous module — `h.Module()` or `h.Module(name='')` — is exported with an empty name: `.SUBCKT ` without a name")
     fen = repo.func(F_EXPORT, "ProtoExporter.export_module_name")
-    G(fen, "name-clash", lambda t: isinstance(t, ast.Compare) and isinstance(t.ops[0], ast.In) and _norm(t.comparators[0]) == "self.modules_by_name", "two modules with one qualified name", "two different modules are exported under one name")
+    def name_taken(t):
+        # `name in table`, or `table.get(name) is not None` (the table's values are mapping records, never None)
+        if isinstance(t, ast.Compare) and isinstance(t.ops[0], ast.In) and _norm(t.comparators[0]) == "self.modules_by_name":
+            return True
+        return isinstance(t, ast.Compare) and isinstance(t.ops[0], ast.IsNot) and ast.unparse(t.comparators[0]) == "None" and bool(pat.match("self.modules_by_name.get($K)", t.left) or pat.match("self.modules_by_name.get($K, None)", t.left))
+    G(fen, "name-clash", name_taken, "two modules with one qualified name", "two different modules are exported under one name")
     # --- exporter refuses leftovers
     fem = repo.func(F_EXPORT, "ProtoExporter.export_module")
     G(fem, "leftover-bundles", lambda t: _norm(t) == "module.bundles", "module that still has bundle instances", "un-flattened bundles are dropped from the package")
